@@ -18,8 +18,9 @@ for d in sorted(glob.glob(os.path.join(ROOT, "seeded", "*"))):
 hdr = """### 9.5 Seeded changes and which checks catch them
 
 %d changes to txtpp were written by sub-agents that saw only the text of one property and a scratch worktree
-(three rounds; the second asked for less obvious sites, the third - `"round": 3` in meta.json - for three mutually different
-mechanisms per property with narrow failing inputs). Each was confirmed in a scratch worktree (`tools/confirm_seeds.sh`,
+(four rounds; the second asked for less obvious sites, the third and fourth - `"round": 3` in meta.json, the fourth for
+C01-C05, C08, C10, C11, C14, C18 - for three mutually different mechanisms per property with narrow failing inputs,
+schedule-dependent ones included). Each was confirmed in a scratch worktree (`tools/confirm_seeds.sh`,
 `tools/confirm_seeds3.sh`: the patch applies, the 104 tests + 4 doc tests pass with it, it builds with the `verif` feature, its
 demonstration behaves differently with it than without it) and is
 kept under `seeded/<id>/` (patch.diff, demo/, meta.json). `tools/run_seeds.py` applies each to /repo, runs the quick check of
@@ -28,7 +29,12 @@ Three round-3 changes were missed at first (C07-4: temp target `name.txtpp.ext` 
 accepted - the identity generator filtered its alphabet through the implementation's own `detect_from`, C17-5: working
 directory passed as a lossy display string); the generators/oracles were strengthened (temp targets of both txtpp name shapes
 incl. one naming an existing source; the alphabet is classified by the Lean grammar model; directory names that are not
-UTF-8 / contain blanks, quotes, backslashes) and all three are caught now.
+UTF-8 / contain blanks, quotes, backslashes) and all three are caught now. Round 4: four of 30 were missed at first by the
+check of their own property (C01-7: a stored tag whose text names another stored tag, substituted sequentially - the project
+generator never stored such text; C10-6: `txtpp.md` / `.txtpp` taken for sources - no such decoys; C18-6: partially
+overlapping tag names panic - the tag fuzz drew names from a large alphabet; C18-7: a directory reached twice makes the
+coordinator wait forever - the configuration fuzz always passed the single input `.`); generators extended, all caught now
+(C14 / C11 / C03 caught the same changes from the start).
 
 | id | property | what the change does | caught by (quick tier) |
 |----|----------|----------------------|------------------------|
